@@ -51,6 +51,7 @@ class CertAnalysis:
         self.exits = {}     # (rv, st, cert) -> (block, tuple, loc)
         self.events = {"tests_true_edges": set(), "outputs": set(), "status_writes": set()}
         self.n_returns = set()
+        self.pairs = {name: handover_pairs(prog, name, f.unit, kind) for name, kind in cfg["outputs"].items()}
 
     # state tuple: (rv, tmp, st, cert)
     @staticmethod
@@ -128,13 +129,30 @@ class CertAnalysis:
             if name in self.cfg["outputs"]:
                 want = self.cfg["outputs"][name]
                 self.events["outputs"].add(c[4])
-                if want == OPT and isinstance(cert, tuple) and cert[0] == "T_OPT" and len(args) >= 5:
-                    if self.is_prob(args[0]) and self.vname(args[3]) == cert[1] and self.vname(args[4]) == cert[2] \
-                            and is_var(args[1], kind="p") and is_var(args[2], kind="p"):
-                        out = [(st[0], st[1], st[2], "H_OPT")]
-                elif want == INF and isinstance(cert, tuple) and cert[0] == "T_INF" and len(args) >= 3:
-                    if self.is_prob(args[0]) and self.vname(args[2]) == cert[1] and is_var(args[1], kind="p"):
-                        out = [(st[0], st[1], st[2], "H_INF")]
+                # which argument is copied into which is read off the hand-over function's body (R-OUTCOPY pairs), not assumed
+                # from argument order or names: (destination position, source position)
+                pairs = self.pairs.get(name) or set()
+                px, py = "p%d" % (self.prob_idx + 1), "p%d" % (self.prob_idx + 2)      # the driver's primal / dual out-parameters
+                ok = bool(pairs) and any(self.is_prob(a) for a in args) and isinstance(cert, tuple)
+                seen = set()
+                for (d, s_) in pairs:
+                    if not ok:
+                        break
+                    if d >= len(args) or s_ >= len(args) or not is_var(args[d]):
+                        ok = False
+                        break
+                    role = strip(args[d])[1]
+                    seen.add(role)
+                    if want == OPT and cert[0] == "T_OPT":
+                        ok = (role == px and self.vname(args[s_]) == cert[1]) or (role == py and self.vname(args[s_]) == cert[2])
+                    elif want == INF and cert[0] == "T_INF":
+                        ok = role == py and self.vname(args[s_]) == cert[1]
+                    else:
+                        ok = False
+                if ok and want == OPT and seen == {px, py}:
+                    out = [(st[0], st[1], st[2], "H_OPT")]
+                elif ok and want == INF and seen == {py}:
+                    out = [(st[0], st[1], st[2], "H_INF")]
                 return out
             if name in self.cfg["tests"]:
                 return out   # effect on the edge
@@ -213,30 +231,49 @@ class CertAnalysis:
         return self
 
 
+def _copies(f):
+    """(call, dst param index, src param index, same index?) for every mpq_set(dst[i], src[j]) of the function; None fields when the
+    operands are not subscripted parameters"""
+    out = []
+    for b, i, c in f.calls():
+        if callee(c) != "mpq_set" or len(c[3]) < 2:
+            continue
+        d, s = strip(c[3][0]), strip(c[3][1])
+        if d[0] == "i" and s[0] == "i" and is_var(d[1], kind="p") and is_var(s[1], kind="p"):
+            out.append((c, int(strip(d[1])[1][1:]), int(strip(s[1])[1][1:]), d[2] == s[2]))
+        else:
+            out.append((c, None, None, False))
+    return out
+
+
+def handover_pairs(prog, name, unit, kind):
+    """{(destination parameter position, source parameter position)} of a hand-over function, read off its element copies; for a
+    function without a body (fixtures) the declared order  (p, out..., tested...)  is used"""
+    f = prog.fn(name, unit) or prog.fn(name)
+    if f is None or not f.blocks:
+        return {(1, 3), (2, 4)} if kind == OPT else {(1, 2)}
+    return {(d, s) for (c, d, s, same) in _copies(f) if d is not None and same and d != s}
+
+
 def outcopy(prog, res, cfg, unit):
-    """R-OUTCOPY: in the hand-over functions every mpq_set(dst[i], src[j]) copies x<-x_mpq / y<-y_mpq, i == j."""
+    """R-OUTCOPY: in the hand-over functions every mpq_set(dst[i], src[j]) copies one parameter vector into another with i == j,
+    every destination has exactly one source; which vector goes where is checked at the call sites by R-CERT (the driver's primal
+    out-parameter must receive the tested primal vector, the dual out-parameter the tested dual vector)."""
     for name, kind in cfg["outputs"].items():
         f = prog.fn(name, unit) or prog.fn(name)
         if f is None:
             raise AnalysisBroken("anchor function %s not found" % name)
         n = 0
-        for b, i, c in f.calls():
-            if callee(c) != "mpq_set":
-                continue
+        src_of = {}
+        for (c, d, s, same) in _copies(f):
             n += 1
             res.obligations += 1
-            d, s = strip(c[3][0]), strip(c[3][1])
-            ok = False
-            if d[0] == "i" and s[0] == "i" and is_var(d[1], kind="p") and is_var(s[1], kind="p"):
-                dn, sn = strip(d[1])[2], strip(s[1])[2]
-                di, si = int(strip(d[1])[1][1:]), int(strip(s[1])[1][1:])
-                # destination is an output parameter declared before the source vectors; names pair up as v <- v_mpq
-                ok = (d[2] == s[2]) and sn.startswith(dn) and sn != dn and di < si
+            ok = d is not None and same and d != s and src_of.setdefault(d, s) == s
             if not ok:
                 res.violations.append(Violation("R-OUTCOPY", "%s|%s" % (name, show(c)), name, short_loc(c[4]),
-                                                "hand-over copy does not pair an output vector with the tested vector of the same kind and index: %s" % show(c)))
+                                                "hand-over copy does not pair one output vector with one tested vector at the same index: %s" % show(c)))
             else:
-                res.sample({"obligation": "%s: %s" % (name, show(c)), "verdict": "pairs %s with %s, same index" % (strip(d[1])[2], strip(s[1])[2])})
+                res.sample({"obligation": "%s: %s" % (name, show(c)), "verdict": "parameter %d <- parameter %d, same index" % (d, s)})
         res.floor("mpq_set copies in %s" % name, n, 2 if kind == OPT else 1)
 
 
